@@ -1,0 +1,61 @@
+//go:build verif
+
+package main
+
+import (
+	"context"
+	"encoding/json"
+	"fmt"
+
+	mcpgo "github.com/mark3labs/mcp-go/mcp"
+
+	pyscnmcp "github.com/ludo-technologies/pyscn/mcp"
+)
+
+func init() {
+	// mcp: call one MCP tool handler in-process and return the text it answers.
+	register("mcp", func(raw json.RawMessage) (interface{}, error) {
+		var req struct {
+			Tool string                 `json:"tool"`
+			Args map[string]interface{} `json:"args"`
+		}
+		if err := json.Unmarshal(raw, &req); err != nil {
+			return nil, err
+		}
+		h := pyscnmcp.NewHandlerSet(nil)
+		var call mcpgo.CallToolRequest
+		call.Params.Name = req.Tool
+		call.Params.Arguments = req.Args
+		ctx := context.Background()
+		var res *mcpgo.CallToolResult
+		var err error
+		switch req.Tool {
+		case "analyze_code":
+			res, err = h.HandleAnalyzeCode(ctx, call)
+		case "check_complexity":
+			res, err = h.HandleCheckComplexity(ctx, call)
+		case "detect_clones":
+			res, err = h.HandleDetectClones(ctx, call)
+		case "check_coupling":
+			res, err = h.HandleCheckCoupling(ctx, call)
+		case "check_cohesion":
+			res, err = h.HandleCheckCohesion(ctx, call)
+		case "find_dead_code":
+			res, err = h.HandleFindDeadCode(ctx, call)
+		case "get_health_score":
+			res, err = h.HandleGetHealthScore(ctx, call)
+		default:
+			return nil, fmt.Errorf("unknown tool %q", req.Tool)
+		}
+		if err != nil {
+			return nil, err
+		}
+		text := ""
+		for _, c := range res.Content {
+			if tc, ok := c.(mcpgo.TextContent); ok {
+				text += tc.Text
+			}
+		}
+		return map[string]interface{}{"is_error": res.IsError, "text": text}, nil
+	})
+}
